@@ -66,6 +66,17 @@ Definition reveal_outputs (b : Batch) : list N :=
   ++ (if b_etching b && b_premine b then [TB_TARGET_POSTAGE] else [])
   ++ (if b_etching b then [0] else []).
 
+(* create_batch_transactions, the reveal inputs in order: one per parent (its output), in
+   satpoints mode the output of every entry's satpoint, then the commit output (value c);
+   `commit_input = parent_info.len() + reveal_satpoints.len()` *)
+Definition reveal_input_values (b : Batch) (c : N) : list N :=
+  map fst (b_parents b)
+  ++ (match b_mode b with SatPoints => firstn (b_n b) (b_satpoints b) | _ => [] end)
+  ++ [c].
+Definition commit_input (b : Batch) : N :=
+  N.of_nat (length (b_parents b)
+            + match b_mode b with SatPoints => length (firstn (b_n b) (b_satpoints b)) | _ => 0 end).
+
 (* Plan::output: (vout, offset) reported for inscription i *)
 Definition reported_one (b : Batch) (i : nat) : N * N :=
   let np := N.of_nat (length (b_parents b)) in
@@ -137,7 +148,7 @@ Fixpoint flatten_pairs (l : list (N * N)) : list Z :=
   match l with [] => [] | (a, b) :: r => zN a :: zN b :: flatten_pairs r end.
 
 (* Input  mode n postage etching premine nP (value offset)*nP nS value*nS
-   Output nOut values.. nPtr pointers.. (vout offset)*n  rune(0 | 1 vout) *)
+   Output nOut values.. nPtr pointers.. (vout offset)*n  rune(0 | 1 vout)  nInputs commitInput *)
 Definition run_C21 (inp : list Z) : list Z :=
   match inp with
   | m :: n :: postage :: e :: pm :: np :: rest =>
@@ -149,5 +160,6 @@ Definition run_C21 (inp : list Z) : list Z :=
     ++ zN (N.of_nat (length (pointers b))) :: zs (pointers b)
     ++ flatten_pairs (reported b)
     ++ match rune_vout b with None => [0%Z] | Some v => [1%Z; zN v] end
+    ++ [zN (N.of_nat (length (reveal_input_values b 0))); zN (commit_input b)]
   | _ => [(-1)%Z]
   end.
